@@ -143,6 +143,10 @@ void h_wq_create_worker(void)
 	VERIF_ASSERT(G_os_thread_created == 1 && G_created_fn == (void *) workqueue_thread && G_created_arg == (void *) &W && W.tid == (pthread_t) 1, "create_worker: exactly one new worker thread on this work queue, tid recorded");
 	VERIF_ASSERT(G_created_sigmask == ~0UL && G_os_sig_blocked == 0x20, "create_worker: thread created with all signals blocked, mask restored");
 	VERIF_ASSERT(Q_INTACT, "create_worker: work queued at fork time stays queued (it runs once, in the child's worker)");
+	/* the departed worker's sleep word is inherited as -1 (it parked after its decrement) or 0; the new worker starts with its own decrement: only from 0 does
+	 * that give -1, the one value futex_wait() sleeps on and wake_worker_thread() recognises.  From -1 it gives -2: the child's worker never sleeps again */
+	VERIF_ASSERT((G_f0 & URCU_WORKQUEUE_RT) || W.futex == 0, "create_worker: the sleep/wake-up word of a non real-time work queue is re-initialised to 0 for the new worker (an inherited -1 becomes -2 at the worker's first decrement: futex_wait never sleeps, the child's worker spins for the rest of its life)");
+	VERIF_COVER((in_futex & 1) && !(G_f0 & URCU_WORKQUEUE_RT));
 	VERIF_COVER((G_f0 & URCU_WORKQUEUE_PAUSED) && (G_f0 & URCU_WORKQUEUE_PAUSE)); VERIF_COVER(G_f0 == URCU_WORKQUEUE_RT);
 }
 void h_wq_worker_pause(void)
